@@ -108,6 +108,13 @@ def ite(c, a, b):
     return a if c else b
 
 
+def balanced(terms):
+    """The terms sum to zero (exactly in the symbolic reading; natively within round-off relative to the largest term)."""
+    terms = [complex(_num(t)) for t in terms]
+    scale = max([abs(t) for t in terms] + [0.0])
+    return abs(sum(terms)) <= TOL_ABS + 1e-6 * scale
+
+
 def indices(xs):
     """range(len(xs)); in the symbolic reading the index range of an abstract (unbounded) sequence."""
     return range(xs if isinstance(xs, int) else len(xs))
